@@ -81,6 +81,24 @@ def cmd_verify(args):
     return 0 if a['status'] == 'ok' else 1
 
 
+def cmd_baseline(args):
+    """record, per unit, the number of functions/lemmas Verus verifies on the committed tree"""
+    import json
+    from vf import check
+    base = {}
+    for name in all_units():
+        r = check.run_unit(name)
+        if r['status'] != 'ok':
+            print('%s: %s %s' % (name, r['status'], r['reason']))
+            return 1
+        base[name] = {'verified': r['analysis']['verified'],
+                      'tagged_clauses': sum(1 for l in r['woven'].lines if l.lstrip().startswith('//@ob'))}
+        print(name, base[name])
+    with open(os.path.join(U.CONTRACTS, 'baseline.json'), 'w') as f:
+        json.dump(base, f, indent=1, sort_keys=True)
+    return 0
+
+
 def cmd_scan(args):
     from vf import check
     u = U.Unit(args[0])
@@ -106,6 +124,8 @@ def main():
         return cmd_verify(args)
     if cmd == 'scan':
         return cmd_scan(args)
+    if cmd == 'baseline':
+        return cmd_baseline(args)
     if cmd == 'check':
         from vf import check
         return check.main(args)
